@@ -211,7 +211,7 @@ def run_verus_unit(unit, threads=8, rlimit=None):
 
 def classify(msg):
     m = msg.lower()
-    if 'postcondition' in m:
+    if 'postcondition' in m or 'post-condition' in m:
         return 'postcondition'
     if 'precondition' in m:
         return 'precondition'
